@@ -299,10 +299,15 @@ fn bound_text(v: f64) -> String {
 }
 
 pub fn dom_text(d: &Dom) -> String {
+    // a lower bound alone may be written with one argument; which spelling is used depends on the
+    // bound itself so that the text of a case is stable
+    let one_argument = |a: f64| ((a * 4.0) as i64).rem_euclid(2) == 0;
     match d {
         Dom::Bool => "Boolean".into(),
         Dom::Int(a, b) => format!("IntegerRange({}, {})", a, b),
         Dom::Real(None, None) => "Real".into(),
+        Dom::Real(Some(a), None) if one_argument(*a) => format!("Real({})", bound_text(*a)),
+        Dom::NonNeg(a, None) if *a != 0.0 && one_argument(*a) => format!("NonNegativeReal({})", bound_text(*a)),
         Dom::Real(a, b) => format!(
             "Real({}, {})",
             a.map(bound_text).unwrap_or_else(|| "MinusInfinity".into()),
